@@ -27,7 +27,7 @@ TRUSTED = ['modelled rather than verified: EPoller.cpp (Add*/Remove*/LookupOrCre
            'tombstone erasure, CheckDescriptors), ConnectedDescriptor::IsClosed/TransferOnClose; invalid-descriptor '
            'branches, MAX_EVENTS truncation, ExportMap counters and timers are not modelled (part (a) covers timers)']
 
-KINDS = ['p', 's']
+KINDS = ['p', 's']   # ('f' = a pipe whose epoll registration is refused, used by the 'refused' class only)
 
 
 def hx(bs):
@@ -164,6 +164,17 @@ def directed(rng, quick):
                     ops += ['ar%d' % d, 'w%d:%s' % (d, hx(rbytes(rng, 3)))]
             for order in ('p', 'q'):
                 yield payload('ready%d:%s' % (n, mode), ds, ops + [order, order, rng.choice('pq'), 'k%d' % rng.randrange(n), order, order])
+    # --- registrations the epoll interface refuses (kind 'f': epoll_ctl fails with EPERM as for a regular file),
+    #     followed by further registrations on other fds, removal / re-adding of the refused one
+    for conn in (False, True):
+        for k1 in KINDS:
+            for c1 in (False, True):
+                for seq in (['ar0', 'ar1'], ['ar0', 'xr0', 'ar1'], ['ar0', 'ar1', 'ar2'], ['ar1', 'ar0', 'xr1', 'ar2'],
+                            ['ar0', 'ar0', 'ar1', 'xr0', 'ar0', 'ar2']):
+                    ds = [desc('f', conn, False, 9), desc(k1, c1, False, rng.choice([1, 9])), desc(rng.choice(KINDS), rng.random() < 0.5, False, 9)]
+                    ops = list(seq) + ['w0:' + hx(rbytes(rng, 2)), 'w1:' + hx(rbytes(rng, 2)), 'w2:' + hx(rbytes(rng, 1))]
+                    ops += polls(rng, 2) + ['k1', 'k0'] + polls(rng, 3) + ['xr0'] + polls(rng, 1)
+                    yield payload('refused', ds, ops)
     # --- write readiness on sockets; write callback removing itself / the read side / another descriptor
     for conn in (True, False):
         for ws in ([], ['x0w'], ['x0r'], ['x0w', 'a0w'], ['x1r'], ['x0r', 'a0r']):
